@@ -354,3 +354,26 @@ package panos
 // that is not yet bound - whatever the member lists read from the device say.
 //vc:func (*rulesPair).equalize$2
 //vc:  ensures[C03] @claimedDeviceGroupNotShared old(gb.nameOnDevice) == "" && old(ga.needed) ==> !result
+
+// markObjects: source, destination and services of every rule of the target
+// are marked (what a rule uses is created or kept).
+//vc:ghost var panMarkedSrc *panRule
+//vc:ghost var panMarkedDst *panRule
+//vc:ghost var panMarkedSrv *panRule
+//vc:func (*rulesPair).markObjects
+//vc:  assign after "ab.markAddresses(ru.Source)" panMarkedSrc = ru
+//vc:  assign after "ab.markAddresses(ru.Destination)" panMarkedDst = ru
+//vc:  assign after "ab.markServices(ru.Service)" panMarkedSrv = ru
+//vc:  assert[C03] at "ab.markAddresses(ru.Source)" @sourceMarked arg1 == ru.Source
+//vc:  assert[C03] at "ab.markAddresses(ru.Destination)" @destinationMarked arg1 == ru.Destination
+//vc:  assert[C03] at "ab.markServices(ru.Service)" @servicesMarked arg1 == ru.Service
+//vc:  invariant[C03] 1 "for _, ru := range l" @everyRuleMarked forall k int :: { l[k] } k == rangeindex && 0 <= k ==> panMarkedSrc == l[k] && panMarkedDst == l[k] && panMarkedSrv == l[k]
+// markAddresses: an address of the target that the device has under that name
+// is kept (marked as needed on the device) and edited if its definition
+// differs; one the device lacks is marked for creation; a group is marked and
+// its members are marked too.
+//vc:func (*rulesPair).markAddresses
+//vc:  assert[C03] at "aA.needed = true" @deviceAddressOfThatNameKept aA == ab.a.addresses[name] && aA != nil
+//vc:  assert[C03] at "aB.edit = true" @changedAddressEdited aB == ab.b.addresses[name]
+//vc:  assert[C03] at "aB.needed = true" @missingAddressCreated aB == ab.b.addresses[name] && (!(name in ab.a.addresses) || ab.a.addresses[name] == nil)
+//vc:  assert[C03] at "ab.markAddresses(g.Members)" @membersOfGroupMarked g.needed && arg1 == g.Members
